@@ -228,7 +228,7 @@ def directed_case(ctx, rng, idx):
     cfg.avoid = {"copy", "clear"}
     cfg.n_ops = rng.randint(5, 25)
     try:
-        live, _ = history.run_history(NullCtx(), rng, cfg, battery_every=0)
+        live, _ = history.run_history(history.BuildCtx(ctx, "C10"), rng, cfg, battery_every=0)
     except Exception as e:
         ctx.note("build-failed:" + type(e).__name__)
         return
